@@ -13,7 +13,10 @@ J = int(sys.argv[sys.argv.index("-j") + 1]) if "-j" in sys.argv else 4
 
 def one(name):
     d = os.path.join(ROOT, "seeded", name)
-    prop = json.load(open(os.path.join(d, "meta.json")))["property"]
+    meta = json.load(open(os.path.join(d, "meta.json")))
+    prop = meta["property"]
+    if not meta.get("confirmed", True):
+        return name, prop, "n/a (no longer breaks the property on the repaired tree)", "", ""
     wt = f"/tmp/wt/cm_{name}"
     subprocess.run(["git", "-C", "/repo", "worktree", "add", "--detach", wt, "HEAD", "-q"], check=True)
     try:
@@ -41,4 +44,4 @@ with cf.ThreadPoolExecutor(J) as ex:
 out = ["| seeded change | property | caught by quick check | stream | first message |", "|---|---|---|---|---|"]
 out += [f"| {n} | {p} | {c} | {s} | {m} |" for n, p, c, s, m in rows]
 open(os.path.join(ROOT, "seeded", "CATCH_MATRIX.md"), "w").write("\n".join(out) + "\n")
-print(sum(1 for r in rows if r[2] == "yes"), "of", len(rows), "caught")
+print(sum(1 for r in rows if r[2] == "yes"), "of", sum(1 for r in rows if not r[2].startswith("n/a")), "caught")
